@@ -60,6 +60,9 @@ func continueAuth(ctx oidc.Context, callbackID string) error {
 	if oauthErr := authenticate(ctx, session); oauthErr != nil {
 		client, err := ctx.Client(session.ClientID)
 		if err != nil {
+			// The session can never be completed without its client, so it
+			// is removed instead of being left behind half processed.
+			_ = ctx.DeleteAuthnSession(session.ID)
 			return goidc.WrapError(goidc.ErrorCodeInvalidRequest,
 				"could not load the client", err)
 		}
